@@ -6,7 +6,8 @@
    to pkg/finality-grandpa and C21 to lib/grandpa's tallies. *)
 From Coq Require Import List NArith.
 From Grandpa Require Import Tree Votes RoundSpec.
-From C22 Require Import Model Proofs Examples.
+From C22 Require Import Model Proofs Examples ModelImpl ProofsImpl ExamplesImpl.
+Import ListNotations.
 Local Open Scope N_scope.
 
 (* In every reachable state, if the Byzantine voters weigh at most the tolerance
@@ -62,3 +63,63 @@ Theorem C22_bound_tight :
   ~ same_chain ex_fork 1%nat 2%nat /\ byz_weight ex_ws honest2 = tolerance ex_ws + 1.
 Proof. split; [exact run_bad_reachable|exact run_bad_conflict]. Qed.
 Print Assumptions C22_bound_tight.
+
+(* ============ the round-change rule lib/grandpa implements (ModelImpl.v) ==================== *)
+(* lib/grandpa leaves a round as soon as it finalised some block and then votes for a descendant
+   of that block ([follows_finalised]) instead of a block >= the previous round's estimate in a
+   completable view ([follows_previous], the paper's rule, which C22_safety is about).  The
+   multi-round trace validation (props/C22, input keyword w) therefore does not demand the step
+   premises of Model.step from the implementation; it evaluates the cross-round invariant of
+   C22_later_rounds_above on the votes cast ([later_below], the guard of finding
+   round-advance-ignores-estimate). *)
+
+(* In every execution of the protocol model the guard is false ... *)
+Theorem C22_protocol_guard_false : forall t ws honest,
+  0 < total ws -> byz_weight ws honest <= tolerance ws -> forall s pvs pcs,
+  reachable t ws honest s ->
+  (forall r, pv s r = at_round pvs r) -> (forall r, pc s r = at_round pcs r) ->
+  later_below t ws honest pvs pcs = false.
+Proof. exact protocol_guard_false. Qed.
+Print Assumptions C22_protocol_guard_false.
+
+(* ... and every execution of the implementation's rule in which the guard is false is safe
+   (the full statement of C22_safety under the negation of the finding's guard) ... *)
+Theorem C22_safety_impl_partial : forall t ws honest,
+  0 < total ws -> byz_weight ws honest <= tolerance ws -> forall s pvs pcs b b',
+  reachable_impl t ws honest s ->
+  (forall r, pv s r = at_round pvs r) -> (forall r, pc s r = at_round pcs r) ->
+  later_below t ws honest pvs pcs = false ->
+  finalised t ws s b -> finalised t ws s b' -> same_chain t b b'.
+Proof. exact safety_impl_partial. Qed.
+Print Assumptions C22_safety_impl_partial.
+
+(* ... but the implementation's rule is not safe: with one Byzantine voter of four (honest
+   weight 3/4 > 2/3, Byzantine weight = tolerance) a reachable state finalises blocks 2 and 4 on
+   different forks; the guard is true of it.  The same execution is replayed on the Go code
+   (corpus/C22/main.txt): voter 0 finalises block 2 in round 5, voters 1 and 2 block 4 in round 6. *)
+Theorem C22_impl_round_rule_refuted :
+  reachable_impl ix_tree ex_ws honest3 run_impl /\
+  finalised ix_tree ex_ws run_impl 2%nat /\ finalised ix_tree ex_ws run_impl 4%nat /\
+  ~ same_chain ix_tree 2%nat 4%nat /\
+  byz_weight ex_ws honest3 <= tolerance ex_ws /\ 0 < total ex_ws /\
+  later_below ix_tree ex_ws honest3 run_impl_pvs run_impl_pcs = true /\
+  (forall r, pv run_impl r = at_round run_impl_pvs r) /\ (forall r, pc run_impl r = at_round run_impl_pcs r).
+Proof.
+  split; [exact run_impl_reachable|].
+  destruct run_impl_conflict as [A [B [C [D E]]]]. destruct run_impl_cast as [F G].
+  repeat split; try assumption; exact run_impl_guard.
+Qed.
+Print Assumptions C22_impl_round_rule_refuted.
+
+(* non-vacuity of C22_safety_impl_partial: run0 is an execution of the implementation's rule too,
+   its guard is false, it finalises block 1 in round 0 and block 2 in round 1 *)
+Example C22_impl_partial_nonvacuous :
+  reachable_impl ex_tree ex_ws honest3 run0 /\
+  later_below ex_tree ex_ws honest3
+    [[vt 3 2; vt 3 1; vt 2 1; vt 1 1; vt 0 1]; [vt 2 2; vt 1 2; vt 0 2]]
+    [[vt 2 1; vt 1 1; vt 0 1]; [vt 2 2; vt 1 2; vt 0 2]] = false /\
+  finalised ex_tree ex_ws run0 1%nat /\ finalised ex_tree ex_ws run0 2%nat.
+Proof.
+  split; [exact run0_reachable_impl|]. split; [exact run0_guard|].
+  destruct run0_finalised as [A [B _]]. split; assumption.
+Qed.
